@@ -12,7 +12,8 @@ Statically decided clauses:
 Not decided: that encode_symbol and decode_symbol are inverse; flush/refill thresholds; export/import
 value identity.  A change of a threshold or of the state update is NOT detected by this check.
 """
-from vlib import sym, rules, effects, anchors
+import re
+from vlib import sym, rules, effects, anchors, facts
 from vlib.effects import Unresolved
 
 ANS = 'stream::stack::AnsCoder'
@@ -106,7 +107,7 @@ def decode_next_inline(F, ev, rets, fallible):
     return (True, 'inline form: one decode_symbol per yielded %s, None when the model iterator is exhausted' % ('Ok model (errors passed on)' if fallible else 'model'))
 
 
-def loop_batch_check(ctx, F, name, fallible):
+def loop_batch_check(ctx, F, name, fallible, ENC=ENC):
     b = default_body(F, ENC, name)
     key = 'R5/batch-is-loop/%s::%s' % (ENC, name)
     role = 'one encode_symbol per yielded item, operands = the item, error propagated, no other mutation'
@@ -202,6 +203,17 @@ def loop_batch_check(ctx, F, name, fallible):
                     if len(encs) == 1 and cr[0].ret == encs[0]['result'] and comp(encs[0]['args'][1], 0) and comp(encs[0]['args'][2], 1):
                         ctx.ok('R5', role, b.defpath, 'arg.into_iter().try_for_each(|item| self.encode_symbol(item.0, item.1)) (std: in order, stops at the first error)', key=key)
                         return
+    if not bad and n_back == 0:
+        # the per-item call sits in a closure driven by an adaptor that cannot stop early (fold / for_each / map ..): items
+        # behind a failing one are still encoded
+        for r in paths:
+            for e in r.events:
+                if e['kind'] != 'call' or not re.search(r'Iterator::(fold|for_each|map|inspect|filter_map|scan)$', e['callee']):
+                    continue
+                for a in e['args']:
+                    cb = F.by_def.get(a[1][1]) if a[0] == 'agg' and isinstance(a[1], tuple) and a[1][0] == 'closure' else None
+                    if cb is not None and any(facts.callee_def(t) == ENC + '::encode_symbol' for _, t in cb.calls()):
+                        bad = 'encode_symbol is called from a closure driven by `%s`, which does not stop at the first error: the items behind a failing one are still encoded' % e['callee'].split('::')[-1]
     if not bad:
         if n_back != 1 or n_exit_ok != 1 or n_err_enc != 1 or (fallible and n_err_item != 1):
             ctx.unresolved('R5', role, b.defpath, 'shape outside the idiom list (iterations %d, ok exits %d, encode-error exits %d, item-error exits %d)' % (n_back, n_exit_ok, n_err_enc, n_err_item), key=key)
